@@ -171,7 +171,6 @@ Proof.
   rewrite OF. cbn [app]. rewrite F3, F2 in O. rewrite F3 in DC, DCe. rewrite F11 in DCe.
   rewrite F12, F8 in TS. change (tDisabled =? tEnabled) with false in TS. cbv iota in TS.
   repeat split; try lia; try congruence.
-  - intros M. specialize (DCe M). lia.
 Qed.
 
 (* when the head of the write list is a data segment that was already transmitted (numbered) and
@@ -271,4 +270,480 @@ Proof.
   { rewrite R9. unfold maxRTO, minRTO in *. change (2 ^ Z.of_nat 9) with 512. lia. }
   destruct (step_rto_dead (silent 9 t) L9 GE) as (ED & _).
   rewrite <- silent_S in ED. destruct L10 as (L10 & _). rewrite ED in L10. discriminate.
+Qed.
+
+(* ------------------------------------------------------------------ fast retransmit / fast recovery *)
+
+(* sender.handleRcvdSegment up to (not including) its final sendData *)
+Definition preSend (t : tcp) (sg : seg) (wnd : Z) (newRto : Z) : tcp :=
+  let s0 := SN t in
+  let clampRto := if newRto <? minRTO then minRTO else newRto in
+  let s1 := if negb (tsOk t) && lessThan (rttSeq s0) (s_ack sg)
+            then s0 <| rto := clampRto |> <| rttSeq := sndNxt s0 |> else s0 in
+  let segLog := plogicalLen (s_flags sg) (s_data sg) in
+  let '(s2, rtx) := checkDuplicateAck s1 (s_ack sg) segLog wnd in
+  let s3 := s2 <| sndWnd := wnd |> in
+  let ack := s_ack sg in
+  let t3 := t <| SN := s3 |> in
+  let t4 :=
+    if inRange (u32 (ack - 1)) (sndUna s3) (sndNxt s3) then
+      let s4 := s3 <| dupAck := 0 |> <| tstate := if tstate s3 =? tDisabled then tDisabled else tOrphaned |> in
+      let s5 := if tsOk t && s_tsecr sg then s4 <| rto := clampRto |> else s4 in
+      let acked := size (sndUna s5) ack in
+      let '(sent', unsent', removed) :=
+        ackLoop (S (length (wsent s5) + length (wunsent s5))) (wsent s5) (wunsent s5) acked 0 in
+      let s6 := s5 <| sndUna := ack |> <| wsent := sent' |> <| wunsent := unsent' |>
+                   <| outstanding := outstanding s5 - removed |> in
+      let s7 := if frActive s6 then s6 else renoUpdate s6 removed in
+      let s8 := if outstanding s7 <? 0 then s7 <| outstanding := 0 |> else s7 in
+      t3 <| SN := s8 |> <| sndBufUsed := sndBufUsed t3 - acked |>
+    else t3 in
+  if rtx then resendSegment t4 else t4.
+
+Lemma sndHandle_preSend t sg wnd newRto idle :
+  sndHandle t sg wnd newRto idle = sendData (preSend t sg wnd newRto) idle.
+Proof. reflexivity. Qed.
+
+Lemma step_processed t sg newRto :
+  processed t sg = true ->
+  let t1 := sndHandle (rcvHandle (t <| out := [] |>) sg) sg (wndOf t sg) newRto false in
+  fst (step t (ESeg sg newRto)) =
+    loopExit (if negb (rcvNxt (RC t1) =? maxSentAck (SN t1)) then sendAck t1 else t1).
+Proof.
+  unfold processed. intros P.
+  apply andb_true_iff in P. destruct P as (P & P4).
+  apply andb_true_iff in P. destruct P as (P & P3).
+  apply andb_true_iff in P. destruct P as (P1 & P2).
+  apply negb_true_iff in P2, P4.
+  cbv zeta. unfold step. cbn [fst]. unfold handleSegment.
+  change (estate (t <| out := [] |>)) with (estate t). change (tsOk (t <| out := [] |>)) with (tsOk t).
+  rewrite P1, P2, P3, P4. cbn [negb]. reflexivity.
+Qed.
+
+Lemma inRange_self_false a n : inRange (u32 (a - 1)) a n = false.
+Proof.
+  unfold inRange. apply Z.ltb_ge. unfold u32. rewrite Zminus_mod_idemp_l.
+  replace (a - 1 - a) with (-1) by lia. change ((-1) mod 2^32) with (2^32 - 1).
+  pose proof (Z.mod_pos_bound (n - a) (2^32) ltac:(lia)). lia.
+Qed.
+
+Lemma cda_third s ack wnd :
+  frActive s = false -> dupAck s = 2 -> ack = sndUna s -> sndUna s <> sndNxt s -> wnd = sndWnd s ->
+  lessThan (frLast s) ack = true ->
+  checkDuplicateAck s ack 0 wnd = ((enterFastRecovery (reduceSsthresh (s <| dupAck := dupAck s + 1 |>))) <| dupAck := 0 |>, true).
+Proof.
+  intros F D A N W L. unfold checkDuplicateAck. rewrite F.
+  subst ack wnd. rewrite !Z.eqb_refl. cbn [negb orb].
+  destruct (sndUna s =? sndNxt s) eqn:E; [lia|].
+  cbn [dupAck set]. rewrite D. change (2 + 1 <? nDupAckThreshold) with false. cbv iota.
+  change (frLast (s <| dupAck := 2 + 1 |>)) with (frLast s). rewrite L. reflexivity.
+Qed.
+
+Definition third_dupack (t : tcp) (sg : seg) : Prop :=
+  processed t sg = true /\ frActive (SN t) = false /\ dupAck (SN t) = 2 /\ sndUna (SN t) <> sndNxt (SN t) /\
+  lessThan (frLast (SN t)) (sndUna (SN t)) = true /\
+  s_ack sg = sndUna (SN t) /\ seglen sg = 0 /\ wndOf t sg = sndWnd (SN t).
+
+(* the state of the sender right after the third duplicate ACK, before sendData *)
+Lemma preSend_third t sg wnd newRto w rest :
+  frActive (SN t) = false -> dupAck (SN t) = 2 -> sndUna (SN t) <> sndNxt (SN t) ->
+  lessThan (frLast (SN t)) (sndUna (SN t)) = true ->
+  s_ack sg = sndUna (SN t) -> seglen sg = 0 -> wnd = sndWnd (SN t) ->
+  wsent (SN t) ++ wunsent (SN t) = w :: rest ->
+  let t5 := preSend t sg wnd newRto in
+  (exists ak wn, out t5 = out t ++ [mkF (w_seq w) ak (w_flags w) wn (w_data w)]) /\
+  frActive (SN t5) = true /\ ssthresh (SN t5) = Z.max 2 (Z.quot (outstanding (SN t)) 2) /\
+  cwnd (SN t5) = ssthresh (SN t5) + 3 /\ frFirst (SN t5) = sndUna (SN t) /\
+  frLast (SN t5) = u32 (sndNxt (SN t) - 1) /\ frMaxCwnd (SN t5) = cwnd (SN t5) + outstanding (SN t) /\
+  dupAck (SN t5) = 0 /\
+  sndUna (SN t5) = sndUna (SN t) /\ sndNxt (SN t5) = sndNxt (SN t) /\ tstate (SN t5) = tstate (SN t) /\
+  outstanding (SN t5) = outstanding (SN t) /\ tsOk t5 = tsOk t.
+Proof.
+  intros F D N L A SL W WL. cbv zeta. unfold preSend. cbv zeta.
+  set (clampRto := if newRto <? minRTO then minRTO else newRto).
+  set (s1 := if negb (tsOk t) && lessThan (rttSeq (SN t)) (s_ack sg)
+             then (SN t) <| rto := clampRto |> <| rttSeq := sndNxt (SN t) |> else SN t).
+  assert (S1 : frActive s1 = false /\ dupAck s1 = 2 /\ sndUna s1 = sndUna (SN t) /\ sndNxt s1 = sndNxt (SN t) /\
+               frLast s1 = frLast (SN t) /\ sndWnd s1 = sndWnd (SN t) /\ outstanding s1 = outstanding (SN t) /\
+               wsent s1 = wsent (SN t) /\ wunsent s1 = wunsent (SN t) /\ tstate s1 = tstate (SN t)).
+  { subst s1. destruct (negb (tsOk t) && lessThan (rttSeq (SN t)) (s_ack sg)); cbn; auto 12. }
+  destruct S1 as (F1 & D1 & U1 & N1 & L1 & W1 & O1 & WS1 & WU1 & T1).
+  fold (seglen sg). rewrite SL.
+  rewrite (cda_third s1 (s_ack sg) wnd); try congruence.
+  cbn [sndUna sndNxt set enterFastRecovery reduceSsthresh].
+  match goal with |- context [inRange ?a ?b ?c] =>
+    replace (inRange a b c) with false
+      by (symmetry; replace b with (s_ack sg) by (cbn; congruence); apply inRange_self_false) end.
+  match goal with |- context [resendSegment ?x] => set (t4 := x) end.
+  destruct (resendSegment_spec t4) as (RC1 & RT & _ & RO).
+  assert (W4 : wsent (SN t4) ++ wunsent (SN t4) = w :: rest).
+  { subst t4. cbn. rewrite WS1, WU1. exact WL. }
+  rewrite W4 in RO. destruct RO as (ak & wn & RO).
+  coref RC1. subst t4. cbn -[Z.quot Z.max Z.add] in *.
+  rewrite F1, D1, U1, N1, O1, T1 in *.
+  split; [exists ak, wn; exact RO|].
+  repeat split; try assumption; try congruence.
+  - rewrite Hss. destruct (Z.quot (outstanding (SN t)) 2 <? 2) eqn:E; lia.
+  - rewrite Hcw, Hss. reflexivity.
+  - rewrite Hfrm, Hcw, Hss. reflexivity.
+Qed.
+
+(* fast_retransmit_on_third_dupack *)
+Lemma fast_retransmit t sg newRto w rest :
+  third_dupack t sg -> wsent (SN t) ++ wunsent (SN t) = w :: rest ->
+  let t' := fst (step t (ESeg sg newRto)) in
+  (exists pre post ak wn, out t' = pre ++ mkF (w_seq w) ak (w_flags w) wn (w_data w) :: post /\ dcount pre = 0) /\
+  frActive (SN t') = true /\ ssthresh (SN t') = Z.max 2 (Z.quot (outstanding (SN t)) 2) /\
+  cwnd (SN t') = ssthresh (SN t') + 3 /\ frFirst (SN t') = sndUna (SN t) /\
+  frLast (SN t') = u32 (sndNxt (SN t) - 1) /\ dupAck (SN t') = 0 /\ sndUna (SN t') = sndUna (SN t) /\
+  (tstate (SN t) = tEnabled -> tstate (SN t') = tEnabled).
+Proof.
+  intros (P & F & D & N & L & A & SL & W) WL. cbv zeta.
+  rewrite (step_processed t sg newRto P). cbv zeta.
+  set (t0 := t <| out := [] |>). set (tr := rcvHandle t0 sg).
+  destruct (rcvHandle_quiet t0 sg) as (QC & _ & pre & QO & QD). fold tr in QC, QO.
+  change (out t0) with (@nil frame) in QO. cbn [app] in QO.
+  coref QC. change (SN t0) with (SN t) in *.
+  rewrite sndHandle_preSend.
+  pose proof (preSend_third tr sg (wndOf t sg) newRto w rest) as PT. cbv zeta in PT.
+  rewrite Hfra, Hdup, Hun, Hnx, Hfrl, Hwse, Hwun, Hout, Hts in PT.
+  specialize (PT F D N L A SL W WL).
+  set (t5 := preSend tr sg (wndOf t sg) newRto) in *.
+  destruct PT as ((ak & wn & O5) & P1 & P2 & P3 & P4 & P5 & P6 & P7 & P8 & P9 & P10 & P11 & P12).
+  pose proof (sendData_spec t5) as SD. cbv zeta in SD.
+  destruct SD as (LF & _ & _ & _ & TS & fs & OF & _). set (t6 := sendData t5 false) in *.
+  match goal with |- context [loopExit ?x] => destruct (tail_quiet t6) as (TC & _ & post & TO & _); set (t7 := loopExit x) in * end.
+  loopfT LF. clear Hts. coref TC.
+  split.
+  - exists pre, (fs ++ post), ak, wn. split; [|exact QD].
+    rewrite TO, OF, O5, QO. rewrite <- !app_assoc. reflexivity.
+  - repeat split; try congruence.
+    intros TE. rewrite Hts0, TS, P10, TE. reflexivity.
+Qed.
+
+(* the write list after k bytes were newly acknowledged (spec vocabulary) *)
+Fixpoint trimmed (l : list wseg) (k : Z) : list wseg :=
+  match l with
+  | [] => []
+  | w :: r => if 0 <? k then
+                (if k <? wlogicalLen w then mkW (add (w_seq w) k) (w_flags w) (dropZ k (w_data w)) :: r
+                 else trimmed r (k - wlogicalLen w))
+              else l
+  end.
+
+Lemma ackLoop_lists fuel : forall sent unsent k r,
+  (length sent + length unsent < fuel)%nat -> 0 <= k < 2^32 ->
+  fst (fst (ackLoop fuel sent unsent k r)) ++ snd (fst (ackLoop fuel sent unsent k r)) = trimmed (sent ++ unsent) k.
+Proof.
+  induction fuel as [|f IH]; intros sent unsent k r Hf Hk; [lia|].
+  cbn [ackLoop]. destruct (0 <? k) eqn:EK; cbn [negb].
+  2:{ destruct sent, unsent; cbn [app trimmed fst snd]; rewrite ?EK; reflexivity. }
+  destruct sent as [|w sent'].
+  - destruct unsent as [|w unsent']; cbn [app trimmed fst snd]; [reflexivity|]. rewrite EK.
+    pose proof (wlogicalLen_range w) as R.
+    destruct (k <? wlogicalLen w) eqn:EL; cbn [fst snd app]; [reflexivity|].
+    rewrite IH; [|cbn in *; lia|unfold u32; rewrite Z.mod_small; lia].
+    cbn [app]. unfold u32. rewrite Z.mod_small by lia. reflexivity.
+  - cbn [app trimmed]. rewrite EK.
+    pose proof (wlogicalLen_range w) as R.
+    destruct (k <? wlogicalLen w) eqn:EL; cbn [fst snd app]; [reflexivity|].
+    rewrite IH; [|cbn in *; lia|unfold u32; rewrite Z.mod_small; lia].
+    unfold u32. rewrite Z.mod_small by lia. reflexivity.
+Qed.
+
+(* bytes newly acknowledged by this segment *)
+Definition newlyAcked (s : sndr) (sg : seg) : Z :=
+  if inRange (u32 (s_ack sg - 1)) (sndUna s) (sndNxt s) then size (sndUna s) (s_ack sg) else 0.
+
+Lemma trimmed_0 l : trimmed l 0 = l.
+Proof. destruct l; reflexivity. Qed.
+
+Definition partial_ack (t : tcp) (sg : seg) : Prop :=
+  processed t sg = true /\ frActive (SN t) = true /\
+  inRange (s_ack sg) (sndUna (SN t)) (u32 (sndNxt (SN t) + 1)) = true /\
+  lessThan (frLast (SN t)) (s_ack sg) = false /\
+  seglen sg = 0 /\ wndOf t sg = sndWnd (SN t) /\ s_ack sg <> frFirst (SN t).
+
+Lemma preSend_partial t sg wnd newRto w rest :
+  frActive (SN t) = true ->
+  inRange (s_ack sg) (sndUna (SN t)) (u32 (sndNxt (SN t) + 1)) = true ->
+  lessThan (frLast (SN t)) (s_ack sg) = false ->
+  seglen sg = 0 -> wnd = sndWnd (SN t) -> s_ack sg <> frFirst (SN t) ->
+  trimmed (wsent (SN t) ++ wunsent (SN t)) (newlyAcked (SN t) sg) = w :: rest ->
+  let t5 := preSend t sg wnd newRto in
+  (exists ak wn, out t5 = out t ++ [mkF (w_seq w) ak (w_flags w) wn (w_data w)]) /\
+  frActive (SN t5) = true /\ frFirst (SN t5) = s_ack sg /\ cwnd (SN t5) = cwnd (SN t) /\
+  ssthresh (SN t5) = ssthresh (SN t) /\ frLast (SN t5) = frLast (SN t).
+Proof.
+  intros F IR L SL W NF WL. cbv zeta. unfold preSend. cbv zeta.
+  set (clampRto := if newRto <? minRTO then minRTO else newRto).
+  set (s1 := if negb (tsOk t) && lessThan (rttSeq (SN t)) (s_ack sg)
+             then (SN t) <| rto := clampRto |> <| rttSeq := sndNxt (SN t) |> else SN t).
+  assert (S1 : frActive s1 = true /\ sndUna s1 = sndUna (SN t) /\ sndNxt s1 = sndNxt (SN t) /\
+               frLast s1 = frLast (SN t) /\ sndWnd s1 = sndWnd (SN t) /\ frFirst s1 = frFirst (SN t) /\
+               wsent s1 = wsent (SN t) /\ wunsent s1 = wunsent (SN t) /\ cwnd s1 = cwnd (SN t) /\
+               ssthresh s1 = ssthresh (SN t)).
+  { subst s1. destruct (negb (tsOk t) && lessThan (rttSeq (SN t)) (s_ack sg)); cbn; auto 12. }
+  destruct S1 as (F1 & U1 & N1 & L1 & W1 & FF1 & WS1 & WU1 & C1 & SS1).
+  fold (seglen sg). rewrite SL.
+  assert (CD : checkDuplicateAck s1 (s_ack sg) 0 wnd = (s1 <| frFirst := s_ack sg |> <| dupAck := 0 |>, true)).
+  { unfold checkDuplicateAck. rewrite F1, U1, N1, IR, L1, L, W1, W, Z.eqb_refl, FF1. cbn [negb orb].
+    destruct (s_ack sg =? frFirst (SN t)) eqn:E; [lia|]. reflexivity. }
+  rewrite CD. cbn [sndUna sndNxt set].
+  change (sndUna (s1 <| frFirst := s_ack sg |> <| dupAck := 0 |> <| sndWnd := wnd |>)) with (sndUna s1).
+  change (sndNxt (s1 <| frFirst := s_ack sg |> <| dupAck := 0 |> <| sndWnd := wnd |>)) with (sndNxt s1).
+  rewrite U1, N1. unfold newlyAcked in WL.
+  destruct (inRange (u32 (s_ack sg - 1)) (sndUna (SN t)) (sndNxt (SN t))) eqn:EI.
+  - set (sA := s1 <| frFirst := s_ack sg |> <| dupAck := 0 |> <| sndWnd := wnd |> <| dupAck := 0 |>
+                  <| tstate := if tstate (s1 <| frFirst := s_ack sg |> <| dupAck := 0 |> <| sndWnd := wnd |>) =? tDisabled
+                               then tDisabled else tOrphaned |>).
+    set (s5 := if tsOk t && s_tsecr sg then sA <| rto := clampRto |> else sA).
+    assert (W5 : wsent s5 = wsent (SN t) /\ wunsent s5 = wunsent (SN t) /\ sndUna s5 = sndUna (SN t) /\
+                 frActive s5 = true /\ frFirst s5 = s_ack sg /\ cwnd s5 = cwnd (SN t) /\
+                 ssthresh s5 = ssthresh (SN t) /\ frLast s5 = frLast (SN t)).
+    { subst s5 sA. destruct (tsOk t && s_tsecr sg); cbn; auto 12. }
+    destruct W5 as (W5 & X5 & U5 & F5 & FF5 & C5 & SS5 & L5). rewrite W5, X5, U5.
+    pose proof (ackLoop_lists (S (length (wsent (SN t)) + length (wunsent (SN t)))) (wsent (SN t)) (wunsent (SN t))
+                  (size (sndUna (SN t)) (s_ack sg)) 0 ltac:(lia)
+                  ltac:(unfold size, u32; apply Z.mod_pos_bound; lia)) as AL.
+    destruct (ackLoop (S (length (wsent (SN t)) + length (wunsent (SN t)))) (wsent (SN t)) (wunsent (SN t))
+                (size (sndUna (SN t)) (s_ack sg)) 0) as [[sent' unsent'] removed].
+    cbn [fst snd] in AL. rewrite WL in AL.
+    cbn [frActive set]. 
+    change (frActive (s5 <| sndUna := s_ack sg |> <| wsent := sent' |> <| wunsent := unsent' |>
+                        <| outstanding := outstanding s5 - removed |>)) with (frActive s5).
+    rewrite F5.
+    match goal with |- context [resendSegment ?x] => set (t4 := x) end.
+    destruct (resendSegment_spec t4) as (RC1 & _ & _ & RO).
+    assert (W4 : wsent (SN t4) ++ wunsent (SN t4) = w :: rest).
+    { subst t4. cbn [SN set]. match goal with |- context [if ?c then _ else _] => destruct c end; cbn; exact AL. }
+    rewrite W4 in RO. destruct RO as (ak & wn & RO).
+    coref RC1.
+    assert (E4 : out t4 = out t /\ frActive (SN t4) = true /\ frFirst (SN t4) = s_ack sg /\ cwnd (SN t4) = cwnd (SN t) /\
+                 ssthresh (SN t4) = ssthresh (SN t) /\ frLast (SN t4) = frLast (SN t)).
+    { subst t4. cbn [SN set out]. match goal with |- context [if ?c then _ else _] => destruct c end; cbn; auto 10. }
+    destruct E4 as (E41 & E42 & E43 & E44 & E45 & E46).
+    split; [exists ak, wn; rewrite RO, E41; reflexivity|].
+    cbn in Hfra, Hfrf, Hcw, Hss, Hfrl. repeat split; congruence.
+  - rewrite trimmed_0 in WL.
+    match goal with |- context [resendSegment ?x] => set (t4 := x) end.
+    destruct (resendSegment_spec t4) as (RC1 & _ & _ & RO).
+    assert (W4 : wsent (SN t4) ++ wunsent (SN t4) = w :: rest).
+    { subst t4. cbn. rewrite WS1, WU1. exact WL. }
+    rewrite W4 in RO. destruct RO as (ak & wn & RO).
+    coref RC1. subst t4. cbn in *.
+    split; [exists ak, wn; exact RO|]. repeat split; congruence.
+Qed.
+
+(* partial ACK during fast recovery: the new head of the write list is retransmitted at once *)
+Lemma partial_ack_retransmits t sg newRto w rest :
+  partial_ack t sg ->
+  trimmed (wsent (SN t) ++ wunsent (SN t)) (newlyAcked (SN t) sg) = w :: rest ->
+  let t' := fst (step t (ESeg sg newRto)) in
+  (exists pre post ak wn, out t' = pre ++ mkF (w_seq w) ak (w_flags w) wn (w_data w) :: post /\ dcount pre = 0) /\
+  frActive (SN t') = true /\ frFirst (SN t') = s_ack sg /\ cwnd (SN t') = cwnd (SN t) /\
+  ssthresh (SN t') = ssthresh (SN t) /\ frLast (SN t') = frLast (SN t).
+Proof.
+  intros (P & F & IR & L & SL & W & NF) WL. cbv zeta.
+  rewrite (step_processed t sg newRto P). cbv zeta.
+  set (t0 := t <| out := [] |>). set (tr := rcvHandle t0 sg).
+  destruct (rcvHandle_quiet t0 sg) as (QC & _ & pre & QO & QD). fold tr in QC, QO.
+  change (out t0) with (@nil frame) in QO. cbn [app] in QO.
+  coref QC. change (SN t0) with (SN t) in *.
+  rewrite sndHandle_preSend.
+  pose proof (preSend_partial tr sg (wndOf t sg) newRto w rest) as PT. cbv zeta in PT.
+  unfold newlyAcked in PT.
+  rewrite Hfra, Hun, Hnx, Hfrl, Hwse, Hwun, Hwn, Hfrf, Hcw, Hss in PT.
+  specialize (PT F IR L SL W NF WL).
+  set (t5 := preSend tr sg (wndOf t sg) newRto) in *.
+  destruct PT as ((ak & wn & O5) & P1 & P2 & P3 & P4 & P5).
+  pose proof (sendData_spec t5) as SD. cbv zeta in SD.
+  destruct SD as (LF & _ & _ & _ & TS & fs & OF & _). set (t6 := sendData t5 false) in *.
+  match goal with |- context [loopExit ?x] => destruct (tail_quiet t6) as (TC & _ & post & TO & _); set (t7 := loopExit x) in * end.
+  loopfT LF. clear Hts. coref TC.
+  split.
+  - exists pre, (fs ++ post), ak, wn. split; [|exact QD].
+    rewrite TO, OF, O5, QO. rewrite <- !app_assoc. reflexivity.
+  - repeat split; congruence.
+Qed.
+
+Definition recovery_ack (t : tcp) (sg : seg) : Prop :=
+  processed t sg = true /\ frActive (SN t) = true /\
+  inRange (s_ack sg) (sndUna (SN t)) (u32 (sndNxt (SN t) + 1)) = true /\
+  lessThan (frLast (SN t)) (s_ack sg) = true.
+
+Lemma preSend_leave t sg wnd newRto :
+  frActive (SN t) = true ->
+  inRange (s_ack sg) (sndUna (SN t)) (u32 (sndNxt (SN t) + 1)) = true ->
+  lessThan (frLast (SN t)) (s_ack sg) = true ->
+  2 <= ssthresh (SN t) -> 0 <= caCount (SN t) ->
+  let t5 := preSend t sg wnd newRto in
+  frActive (SN t5) = false /\ ssthresh (SN t5) = ssthresh (SN t) /\ dupAck (SN t5) = 0 /\
+  ssthresh (SN t) <= cwnd (SN t5) <= ssthresh (SN t) + caCount (SN t) / ssthresh (SN t) + ackedSegs (SN t) sg.
+Proof.
+  intros F IR L SS CA. cbv zeta. unfold preSend. cbv zeta.
+  set (clampRto := if newRto <? minRTO then minRTO else newRto).
+  set (s1 := if negb (tsOk t) && lessThan (rttSeq (SN t)) (s_ack sg)
+             then (SN t) <| rto := clampRto |> <| rttSeq := sndNxt (SN t) |> else SN t).
+  assert (S1 : frActive s1 = true /\ sndUna s1 = sndUna (SN t) /\ sndNxt s1 = sndNxt (SN t) /\
+               frLast s1 = frLast (SN t) /\ caCount s1 = caCount (SN t) /\
+               wsent s1 = wsent (SN t) /\ wunsent s1 = wunsent (SN t) /\ 
+               ssthresh s1 = ssthresh (SN t)).
+  { subst s1. destruct (negb (tsOk t) && lessThan (rttSeq (SN t)) (s_ack sg)); cbn; auto 12. }
+  destruct S1 as (F1 & U1 & N1 & L1 & C1 & WS1 & WU1 & SS1).
+  assert (CD : checkDuplicateAck s1 (s_ack sg) (plogicalLen (s_flags sg) (s_data sg)) wnd = (leaveFastRecovery s1, false)).
+  { unfold checkDuplicateAck. rewrite F1, U1, N1, IR, L1, L. reflexivity. }
+  rewrite CD. cbn [sndUna sndNxt set leaveFastRecovery].
+  assert (D0 : 0 <= caCount (SN t) / ssthresh (SN t)) by (apply Z.div_pos; lia).
+  unfold ackedSegs. rewrite U1, N1.
+  destruct (inRange (u32 (s_ack sg - 1)) (sndUna (SN t)) (sndNxt (SN t))) eqn:EI.
+  2:{ cbn. rewrite SS1. repeat split; lia. }
+  match goal with |- context [ackLoop _ (wsent ?s5) _ _ _] => set (s5 := s5) end.
+  assert (W5 : wsent s5 = wsent (SN t) /\ wunsent s5 = wunsent (SN t) /\ sndUna s5 = sndUna (SN t) /\
+               frActive s5 = false /\ cwnd s5 = ssthresh (SN t) /\ caCount s5 = caCount (SN t) /\
+               ssthresh s5 = ssthresh (SN t) /\ dupAck s5 = 0).
+  { subst s5. destruct (tsOk t && s_tsecr sg); cbn; auto 12. }
+  destruct W5 as (W5 & X5 & U5 & F5 & C5 & CA5 & SS5 & D5). rewrite W5, X5, U5.
+  pose proof (ackLoop_removed (S (length (wsent (SN t)) + length (wunsent (SN t)))) (wsent (SN t)) (wunsent (SN t))
+                (size (sndUna (SN t)) (s_ack sg)) 0 ltac:(lia)
+                ltac:(unfold size, u32; apply Z.mod_pos_bound; lia)) as AR.
+  destruct (ackLoop (S (length (wsent (SN t)) + length (wunsent (SN t)))) (wsent (SN t)) (wunsent (SN t))
+              (size (sndUna (SN t)) (s_ack sg)) 0) as [[sent' unsent'] removed].
+  cbn [snd] in AR. rewrite Z.add_0_l in AR. rewrite <- AR.
+  pose proof (covered_nonneg (wsent (SN t) ++ wunsent (SN t)) (size (sndUna (SN t)) (s_ack sg))) as CN.
+  rewrite <- AR in CN.
+  set (s6 := s5 <| sndUna := s_ack sg |> <| wsent := sent' |> <| wunsent := unsent' |>
+                <| outstanding := outstanding s5 - removed |>).
+  assert (E6 : frActive s6 = false /\ cwnd s6 = ssthresh (SN t) /\ caCount s6 = caCount (SN t) /\
+               ssthresh s6 = ssthresh (SN t) /\ dupAck s6 = 0) by (subst s6; cbn; auto).
+  destruct E6 as (F6 & C6 & CA6 & SS6 & D6).
+  rewrite F6.
+  pose proof (renoUpdate_pot s6 removed) as RP. cbv zeta in RP.
+  destruct RP as (R1 & R2 & R3 & R4 & R5 & R6 & R7 & R8); try lia.
+  unfold psi in R3. rewrite C6, CA6 in R3.
+  assert (D7 : dupAck (renoUpdate s6 removed) = 0).
+  { unfold renoUpdate, renoCA. cbv zeta.
+    repeat match goal with |- context [if ?c then _ else _] => destruct c end; cbn; exact D6. }
+  assert (0 <= caCount (renoUpdate s6 removed) / cwnd (renoUpdate s6 removed)) by (apply Z.div_pos; lia).
+  cbn [SN set]. destruct (outstanding (renoUpdate s6 removed) <? 0); cbn; repeat split; try congruence; try lia.
+Qed.
+
+(* recovery ends on the first ACK beyond fr.last: cwnd deflates to ssthresh (then grows by the
+   regular congestion-avoidance update for the segments this ACK newly acknowledged) *)
+Lemma recovery_ends t sg newRto :
+  recovery_ack t sg -> 2 <= ssthresh (SN t) -> 0 <= caCount (SN t) ->
+  let t' := fst (step t (ESeg sg newRto)) in
+  frActive (SN t') = false /\ ssthresh (SN t') = ssthresh (SN t) /\ dupAck (SN t') = 0 /\
+  ssthresh (SN t) <= cwnd (SN t') <= ssthresh (SN t) + caCount (SN t) / ssthresh (SN t) + ackedSegs (SN t) sg.
+Proof.
+  intros (P & F & IR & L) SS CA. cbv zeta.
+  rewrite (step_processed t sg newRto P). cbv zeta.
+  set (t0 := t <| out := [] |>). set (tr := rcvHandle t0 sg).
+  destruct (rcvHandle_quiet t0 sg) as (QC & _). fold tr in QC.
+  coref QC. change (SN t0) with (SN t) in *.
+  rewrite sndHandle_preSend.
+  pose proof (preSend_leave tr sg (wndOf t sg) newRto) as PT. cbv zeta in PT. unfold ackedSegs in *.
+  rewrite Hfra, Hun, Hnx, Hfrl, Hwse, Hwun, Hca, Hss in PT.
+  specialize (PT F IR L SS CA).
+  set (t5 := preSend tr sg (wndOf t sg) newRto) in *.
+  destruct PT as (P1 & P2 & P3 & P4).
+  pose proof (sendData_spec t5) as SD. cbv zeta in SD.
+  destruct SD as (LF & _). set (t6 := sendData t5 false) in *.
+  match goal with |- context [loopExit ?x] => destruct (tail_quiet t6) as (TC & _); set (t7 := loopExit x) in * end.
+  loopfT LF. clear Hts. coref TC.
+  repeat split; try congruence; lia.
+Qed.
+
+(* fast_retransmit_does_not_rearm (documents finding F11).  The model's timer has no clock: a
+   re-arm is the transition "not enabled -> enabled" made by sendData's guard
+   [!resendTimer.enabled() && sndUna != sndNxt].  On the fast-retransmit step nothing disables
+   the timer (that only happens when an ACK advances sndUna), so an enabled timer stays enabled
+   with its OLD deadline: [tstate] is unchanged by everything before sendData, and sendData's
+   arming guard is false. *)
+Lemma fast_retransmit_does_not_rearm t sg newRto :
+  third_dupack t sg -> tstate (SN t) = tEnabled ->
+  tstate (SN (preSend (rcvHandle (t <| out := [] |>) sg) sg (wndOf t sg) newRto)) = tEnabled /\
+  tstate (SN (fst (step t (ESeg sg newRto)))) = tEnabled.
+Proof.
+  intros TD TE. 
+  destruct (wsent (SN t) ++ wunsent (SN t)) as [|w rest] eqn:WL.
+  - (* empty write list: same computation, nothing to resend *)
+    destruct TD as (P & F & D & N & L & A & SL & W).
+    set (t0 := t <| out := [] |>). set (tr := rcvHandle t0 sg).
+    destruct (rcvHandle_quiet t0 sg) as (QC & _). fold tr in QC.
+    coref QC. change (SN t0) with (SN t) in *.
+    assert (T5 : tstate (SN (preSend tr sg (wndOf t sg) newRto)) = tEnabled).
+    { unfold preSend. cbv zeta.
+      set (clampRto := if newRto <? minRTO then minRTO else newRto).
+      set (s1 := if negb (tsOk tr) && lessThan (rttSeq (SN tr)) (s_ack sg)
+                 then (SN tr) <| rto := clampRto |> <| rttSeq := sndNxt (SN tr) |> else SN tr).
+      assert (S1 : frActive s1 = false /\ dupAck s1 = 2 /\ sndUna s1 = sndUna (SN t) /\ sndNxt s1 = sndNxt (SN t) /\
+               frLast s1 = frLast (SN t) /\ sndWnd s1 = sndWnd (SN t) /\ tstate s1 = tEnabled).
+      { subst s1. destruct (negb (tsOk tr) && lessThan (rttSeq (SN tr)) (s_ack sg)); cbn; repeat split; congruence. }
+      destruct S1 as (F1 & D1 & U1 & N1 & L1 & W1 & T1).
+      fold (seglen sg). rewrite SL.
+      rewrite (cda_third s1 (s_ack sg) (wndOf t sg)); try congruence.
+      cbn [sndUna sndNxt set enterFastRecovery reduceSsthresh].
+      match goal with |- context [inRange ?a ?b ?c] =>
+        replace (inRange a b c) with false
+          by (symmetry; replace b with (s_ack sg) by (cbn; congruence); apply inRange_self_false) end.
+      match goal with |- context [resendSegment ?x] => destruct (resendSegment_spec x) as (RC1 & _) end.
+      coref RC1. cbn in Hts0. rewrite Hts0. exact T1. }
+    split; [exact T5|].
+    rewrite (step_processed t sg newRto P). cbv zeta. fold t0. fold tr. rewrite sndHandle_preSend.
+    set (t5 := preSend tr sg (wndOf t sg) newRto) in *.
+    pose proof (sendData_spec t5) as SD. cbv zeta in SD.
+    destruct SD as (_ & _ & _ & _ & TS & _). set (t6 := sendData t5 false) in *.
+    match goal with |- context [loopExit ?x] => destruct (tail_quiet t6) as (TC & _); set (t7 := loopExit x) in * end.
+    coref TC. rewrite Hts0, TS, T5. reflexivity.
+  - pose proof (fast_retransmit t sg newRto w rest TD WL) as FR. cbv zeta in FR.
+    destruct FR as (_ & _ & _ & _ & _ & _ & _ & _ & FR). split; [|exact (FR TE)].
+    destruct TD as (P & F & D & N & L & A & SL & W).
+    set (t0 := t <| out := [] |>). set (tr := rcvHandle t0 sg).
+    destruct (rcvHandle_quiet t0 sg) as (QC & _). fold tr in QC.
+    coref QC. change (SN t0) with (SN t) in *.
+    pose proof (preSend_third tr sg (wndOf t sg) newRto w rest) as PT. cbv zeta in PT.
+    rewrite Hfra, Hdup, Hun, Hnx, Hfrl, Hwse, Hwun, Hout, Hts in PT.
+    specialize (PT F D N L A SL W WL).
+    destruct PT as (_ & _ & _ & _ & _ & _ & _ & _ & _ & _ & P10 & _). congruence.
+Qed.
+
+(* contrast: an ACK that acknowledges new data DOES pass through "timer disabled", so that
+   sendData re-arms it with a fresh full rto (resendTimer.disable() in handleRcvdSegment) *)
+Lemma new_ack_disables_timer t sg wnd newRto :
+  inRange (u32 (s_ack sg - 1)) (sndUna (SN t)) (sndNxt (SN t)) = true ->
+  tstate (SN t) = tEnabled ->
+  tstate (SN (preSend t sg wnd newRto)) = tOrphaned.
+Proof.
+  intros IR TE. unfold preSend. cbv zeta.
+  set (clampRto := if newRto <? minRTO then minRTO else newRto).
+  set (s1 := if negb (tsOk t) && lessThan (rttSeq (SN t)) (s_ack sg)
+             then (SN t) <| rto := clampRto |> <| rttSeq := sndNxt (SN t) |> else SN t).
+  assert (S1 : sndUna s1 = sndUna (SN t) /\ sndNxt s1 = sndNxt (SN t) /\ tstate s1 = tEnabled).
+  { subst s1. destruct (negb (tsOk t) && lessThan (rttSeq (SN t)) (s_ack sg)); cbn; auto. }
+  destruct S1 as (U1 & N1 & T1).
+  pose proof (cda_CC_fields s1 sg wnd) as CF. cbv zeta in CF. fold (seglen sg).
+  destruct (checkDuplicateAck s1 (s_ack sg) (seglen sg) wnd) as [s2 rtx]. cbn [fst] in CF.
+  destruct CF as (U2 & N2 & T2).
+  cbn [sndUna sndNxt set].
+  change (sndUna (s2 <| sndWnd := wnd |>)) with (sndUna s2).
+  change (sndNxt (s2 <| sndWnd := wnd |>)) with (sndNxt s2).
+  rewrite U2, N2, U1, N1, IR.
+  match goal with |- context [ackLoop ?a ?b ?c ?d ?e] => destruct (ackLoop a b c d e) as [[sent' unsent'] removed] end.
+  assert (TT : forall t4, tstate (SN t4) = tOrphaned -> tstate (SN (if rtx then resendSegment t4 else t4)) = tOrphaned).
+  { intros t4 H4. destruct rtx; [|exact H4]. destruct (resendSegment_spec t4) as (RC1 & _). coref RC1.
+    cbn in Hts. congruence. }
+  apply TT. cbn [SN set].
+  assert (T5 : forall s7 : sndr, tstate s7 = tOrphaned ->
+            tstate (if outstanding s7 <? 0 then s7 <| outstanding := 0 |> else s7) = tOrphaned).
+  { intros s7 H7. destruct (outstanding s7 <? 0); cbn; exact H7. }
+  apply T5.
+  assert (T6 : forall s6 : sndr, tstate s6 = tOrphaned ->
+            tstate (if frActive s6 then s6 else renoUpdate s6 removed) = tOrphaned).
+  { intros s6 H6. destruct (frActive s6); [exact H6|].
+    unfold renoUpdate, renoCA. cbv zeta.
+    repeat match goal with |- context [if ?c then _ else _] => destruct c end; cbn; exact H6. }
+  apply T6. cbn [tstate set].
+  change (tstate (s2 <| sndWnd := wnd |>)) with (tstate s2). rewrite T2, T1.
+  destruct (tsOk t && s_tsecr sg); reflexivity.
 Qed.
